@@ -241,8 +241,8 @@ example : ¬ ValidBatch exInfo2 [0, 3, 0, 4] := by
 
 /-- three calls on two clients, map iterated in the order client 1, client 0; call 1 gets
 NotServingRegion and is sent again (alone) in round 1, calls 0 and 2 are not -/
-def exR0 : Round := ⟨fun c => .ok (c % 2), fun c => if c = 1 then .fail .nsre 5 else .ok (10 + c), [1, 0], .none⟩
-def exR1 : Round := ⟨fun _ => .ok 0, fun _ => .ok 21, [], .none⟩
+def exR0 : Round := ⟨fun c => .ok (c % 2), fun c => if c = 1 then .fail .nsre 5 else .ok (10 + c), [1, 0], .none, fun _ => false⟩
+def exR1 : Round := ⟨fun _ => .ok 0, fun _ => .ok 21, [], .none, fun _ => false⟩
 
 example : sendBatch exInfo2 [0, 1, 2] [exR0, exR1]
     = .ok ⟨[⟨some 10, none⟩, ⟨some 21, none⟩, ⟨some 12, none⟩], true,
